@@ -455,3 +455,38 @@ Print Assumptions c07_f17_class.
 Print Assumptions c07_f17_class_precise.
 Print Assumptions c07_f17_class_flow.
 Print Assumptions c07_f17_class_nonvacuous.
+
+(* ================================================================== the code's own arithmetic (translated fragments) *)
+(** The expression that sizes one copy of chunk data and the one that delimits the hexadecimal number inside a size line are
+    translated from src/chunk.rs on every run (theories/Gen.v, FRAGMENTS of tools/rs2coq.py); proofs/Gen_equiv_frag.v proves them
+    equal to the statement's formulas for all arguments and to what the model's decoder computes. *)
+From Hoot Require Import Gen.
+From Hoot.proofs Require Import Gen_equiv_frag.
+Theorem c07_code_read_data : forall src_len dst_len left, gen_chunk_read_n src_len dst_len left = N.min (N.min src_len dst_len) left.
+Proof. exact gen_chunk_read_n_spec. Qed.
+Theorem c07_code_read_data_is_model : forall lft src room,
+  exists r, read_data lft src room = Ok r /\
+            sr_in r = gen_chunk_read_n (len src) room lft /\
+            sr_out r = take (gen_chunk_read_n (len src) room lft) src /\
+            sr_st r = (if lft - gen_chunk_read_n (len src) room lft =? 0 then DCrLf
+                       else DChunk (lft - gen_chunk_read_n (len src) room lft)).
+Proof. exact read_data_gen. Qed.
+Theorem c07_code_len_end : forall meta_some meta_val i,
+  gen_size_len_end meta_some meta_val i = N.min (if meta_some then meta_val else SANITY_CHECK + 1) i.
+Proof. exact gen_size_len_end_spec. Qed.
+Theorem c07_code_read_size_is_model : forall src i,
+  find_crlf src = Some i -> (SANITY_CHECK <? i) = false ->
+  let mm := position (fun c => c =? 59) (take META_WINDOW src) in
+  let raw := take (gen_size_len_end (match mm with Some _ => true | None => false end)
+                                    (match mm with Some m => m | None => 0 end) i) src in
+  read_size src =
+  if negb (forallb (fun c => c <? 128) raw) then Err ChunkLenNotAscii else
+  match parse_hex_usize (trim raw) with
+  | None => Err ChunkLenNotANumber
+  | Some n => Ok {| sr_st := if n =? 0 then DEnding else DChunk n; sr_in := i + 2; sr_out := []; sr_more := true |}
+  end.
+Proof. exact read_size_gen. Qed.
+Print Assumptions c07_code_read_data.
+Print Assumptions c07_code_read_data_is_model.
+Print Assumptions c07_code_len_end.
+Print Assumptions c07_code_read_size_is_model.
